@@ -395,6 +395,11 @@ class LogPaxosWorld(NetWorld):
                     tuple((c, fidx.get(id(f), -1)) for c, f in nd._pending_commands),
                     tuple(sorted((k, len(v)) for k, v in nd._phase1_responses.items())),
                     tuple(self.sms[nd.name].applied),
+                    # bookkeeping added by later library versions (absent: None)
+                    tuple(sorted(getattr(nd, "_slot_ballot", {}).items())),
+                    tuple(sorted((k, tuple(sorted(v))) for k, v in getattr(nd, "_slot_ackers", {}).items())),
+                    getattr(nd, "_recovered_ballot", None),
+                    tuple(sorted(getattr(nd, "_held_accepts", {}))),
                 ))
             except AttributeError:
                 out.append(node_canon(nd))
